@@ -374,7 +374,7 @@ RecordF(cfg, opts, st) ==
   LET working == ~IsAbsenceStep(opts, st.time)
   IN [st EXCEPT !.rc = [t \in Tasks(cfg) |->
         IF ShowTask(working, st.ts[t]) = "READY" THEN st.rc[t] + 1 ELSE st.rc[t]]]
-TickF(st) == [st EXCEPT !.time = st.time + 1]
+TickF(opts, st) == [st EXCEPT !.time = st.time + Unit(opts)]
 
 \* ---------------------------------------------------------------------------
 \* compositions
